@@ -683,6 +683,12 @@ impl<'b, 'a: 'b> FmtVisitor<'a> {
             (ast::AssocItemKind::MacCall(ref mac), _) => {
                 self.visit_mac(mac, MacroPosition::Item);
             }
+            (ast::AssocItemKind::Delegation(..), _)
+            | (ast::AssocItemKind::DelegationMac(..), _) => {
+                // As for delegation items outside of impls and traits: leave the contents
+                // of the span unformatted.
+                self.push_rewrite(ai.span, None);
+            }
             _ => unreachable!(),
         }
     }
